@@ -53,6 +53,7 @@ type Script struct {
 	Bulk      string `json:"bulk"`                // none | reassoc | massdel
 	Mods      int    `json:"mods"`                // rule-changing modifications issued while the burst arrives
 	BurstOne  bool   `json:"burst_one,omitempty"` // all buffer notifications for one session and PDR (its packet queue holds 512)
+	Silent    bool   `json:"silent,omitempty"`    // the notifications ask for buffering only (BUFF without NOCP): no report request goes out for them
 	// RetransMs > 0: real retransmission timers of that length (MaxRetrans 2) and a simulated SMF that answers every
 	// Session Report Request at once, so that responses and timer expiries meet in the event loop's queues
 	RetransMs int `json:"retrans_ms,omitempty"`
@@ -75,10 +76,11 @@ type Result struct {
 	States       []string `json:"states,omitempty"`
 	Inconclusive string   `json:"inconclusive,omitempty"`
 	Crash        string   `json:"crash,omitempty"`
-	TimerEvents  int      `json:"timer_events"`  // events the loop posts to the periodic server in one turn
-	Reported     int      `json:"reported"`      // sessions one tick reports
-	InFlight     int      `json:"in_flight"`     // notifications written while the loop was busy
-	BusyRemovals int      `json:"busy_removals"` // real-ticker scripts: deletions landing while the periodic server is inside a slow query
+	TimerEvents  int      `json:"timer_events"`   // events the loop posts to the periodic server in one turn
+	Reported     int      `json:"reported"`       // sessions one tick reports
+	InFlight     int      `json:"in_flight"`      // notifications written while the loop was busy
+	Lost         string   `json:"lost,omitempty"` // a notification consumed by the listener that never reached its packet queue
+	BusyRemovals int      `json:"busy_removals"`  // real-ticker scripts: deletions landing while the periodic server is inside a slow query
 	WallMs       int64    `json:"wall_ms"`
 }
 
@@ -381,13 +383,19 @@ func runScript(s Script) (res Result) {
 		res.TimerEvents = s.Sessions * s.URRs
 	}
 	tick := func() { f.D.G.VerifPerio().VerifTick(time.Duration(periodSecs[0]) * time.Second) }
+	sentTo := map[uint64]int{} // buffer notifications written per session (all for PDR 1)
 	burst := func(n int) {
 		for i := 0; i < n; i++ {
 			seid := r.Sess[i%len(r.Sess)].UP
 			if s.BurstOne {
 				seid = r.Sess[0].UP
 			}
-			_ = f.D.K.SendBuffer(seid, 1, 0x0c, []byte(fmt.Sprintf("pkt-%d", i)))
+			action := uint16(0x0c)
+			if s.Silent {
+				action = 0x04
+			}
+			_ = f.D.K.SendBuffer(seid, 1, action, []byte(fmt.Sprintf("pkt-%d", i)))
+			sentTo[seid]++
 		}
 	}
 	send := func(op stack.Op) {
@@ -506,6 +514,20 @@ func runScript(s Script) (res Result) {
 				res.Inconclusive = err.Error()
 			}
 			return
+		}
+		// every report eventually forwarded: each notification written for a session that is still there has been queued
+		// for its PDR (up to the queue's capacity of 512)
+		if s.Bulk == "none" && len(s.Real) == 0 {
+			snap := f.S.Srv.VerifSnapshot()
+			for seid, n := range sentTo {
+				if vs, ok := snap.Sess[seid]; ok {
+					if have := len(vs.Queues[1]); have != min(n, 512) {
+						res.OK = false
+						res.Lost = fmt.Sprintf("%d buffer notifications were written for session %#x (PDR 1) and consumed by the listener, its packet queue holds %d (capacity 512)", n, seid, have)
+						return
+					}
+				}
+			}
 		}
 		_ = f.Close()
 	}
@@ -654,6 +676,8 @@ func classify(s Script, r Result) *vcore.Violation {
 		return nil
 	case r.Crash != "":
 		return vcore.Violatef(r.Crash, "script %s: UPF fatal exit", vcore.JSON(s))
+	case r.Lost != "":
+		return vcore.Violatef("report-lost", "script %s: %s", vcore.JSON(s), r.Lost)
 	case r.Cycle != "":
 		over := false
 		switch r.Cycle {
@@ -715,6 +739,7 @@ func fixed() []Script {
 		{Name: "burst-below-capacity-during-mods", Sessions: 10, URRs: 0, Periods: 1, Burst: 100, BurstAt: "mods", Mods: 20, LatencyUs: 100, Tick: "none", Bulk: "none"},
 		{Name: "massdel-with-tick", Sessions: 200, URRs: 2, Periods: 1, Tick: "inside", Bulk: "massdel"},
 		{Name: "burst-idle-600", Sessions: 5, URRs: 1, Periods: 1, Burst: 600, BurstAt: "idle", Tick: "after", Bulk: "none"},
+		{Name: "silent-burst-during-mods", Sessions: 4, URRs: 1, Periods: 1, LatencyUs: 200, Burst: 100, BurstAt: "mods", Mods: 30, Tick: "before", Bulk: "none", Silent: true},
 		{Name: "responses-meet-expiries", Sessions: 20, URRs: 1, Periods: 1, LatencyUs: 200, Burst: 100, BurstAt: "mods", Mods: 40, Tick: "before", Bulk: "none", RetransMs: 1},
 		{Name: "burst-600-for-one-pdr", Sessions: 3, URRs: 0, Periods: 1, Burst: 600, BurstAt: "idle", BurstOne: true, Tick: "none", Bulk: "none"},
 		{Name: "real-tick-queued-behind-last-removal", Real: []RealEv{{AtMs: 0, Kind: "est", Period: 1}, {AtMs: 200, Kind: "est", Period: 2}, {AtMs: 900, Kind: "slow", SlowMs: 500},
@@ -772,6 +797,7 @@ func gen(t *rapid.T) Script {
 		LatencyUs: rapid.SampledFrom([]int{0, 0, 20, 100, 200}).Draw(t, "latency"),
 		Burst:     rapid.SampledFrom([]int{0, 0, 30, 100, 127, 129, 300, 513, 600}).Draw(t, "burst"),
 		BurstOne:  rapid.IntRange(0, 2).Draw(t, "burst_one") == 0,
+		Silent:    rapid.IntRange(0, 2).Draw(t, "silent") == 0,
 		RetransMs: rapid.SampledFrom([]int{0, 0, 1, 3}).Draw(t, "retrans_ms"),
 		BurstAt:   rapid.SampledFrom([]string{"none", "mods", "bulk", "idle"}).Draw(t, "burstat"),
 		Tick:      rapid.SampledFrom([]string{"none", "before", "inside", "inside", "after"}).Draw(t, "tick"),
